@@ -112,6 +112,7 @@ partial def loopIO (hin : IO.FS.Stream) (hout : IO.FS.Stream) : IO Unit := do
   match f with
   | "W" :: rest => hout.putStrLn (← Session.writerSession rest)
   | "R" :: rest => hout.putStrLn (← Session.readerSession rest)
+  | "HD" :: rest => hout.putStrLn (Session.hdSession rest)
   | _ => hout.putStrLn (step line)
   loopIO hin hout
 
